@@ -20,6 +20,7 @@ pub mod c14;
 pub mod c15;
 pub mod c16;
 pub mod c17;
+pub mod c18;
 pub mod c19;
 
 pub type Runner = fn(&mut Ctx);
@@ -43,6 +44,7 @@ pub fn lookup(prop: &str) -> Option<Runner> {
         "C15" => c15::run,
         "C16" => c16::run,
         "C17" => c17::run,
+        "C18" => c18::run,
         "C19" => c19::run,
         _ => return None,
     })
